@@ -31,13 +31,14 @@ CLAIMED = {
    technique="Coq proofs about digest models and signature opcodes + differential correspondence incl. verification-call arguments (ld --wrap) with independently signed spends",
    ref="DESIGN.md §2 C02"),
  "C12": dict(
-   text="Theorems (Properties/C12.v) for sessions over one script (btcdeb <script> [stack...]) and for legacy spends (scriptSig section, header, non-P2SH "
-        "scriptPubKey section: at the end of the scriptSig the marker is on the header of the section the next step enters), any script / stack / flags / version: the listing "
+   text="Theorems (Properties/C12.v) for sessions over one script (btcdeb <script> [stack...]), for legacy spends (scriptSig section, header, non-P2SH "
+        "scriptPubKey section: at the end of the scriptSig the marker is on the header of the section the next step enters) and for tapscript spends "
+        "(one line per commitment step showing the very node that step hashes, then the tweak check, then the committed script), any script / stack / flags / version: the listing "
         "main() builds is the exact decoding of the script in execution order with line number = position; in EVERY state reached by successful "
         "steps from the start (induction over the step sequence; rewinds return to such states by C04) the position counter counts the operations "
         "before the program counter, so the marked line is the numbered rendering of the operation the next step fetches, and after the last "
-        "operation nothing is marked. NOT proved: the same invariant across P2SH and taproot-commitment sections "
-        "(C12_marker_p2sh_and_taproot_sections) - decided by correspondence: the real interactive btcdeb driven through a pty (print after every step/rewind; "
+        "operation nothing is marked. NOT proved: the same invariant across a P2SH section "
+        "(C12_marker_p2sh_section) - decided by correspondence: the real interactive btcdeb driven through a pty (print after every step/rewind; "
         "plain scripts, scriptPubKey and P2SH sections, P2WSH, taproot key path, tapscript with control paths 0..2) vs the model's listing and marked "
         "line, the step/rewind echo, and - on the implementation alone - the marked line vs the operation at the program counter reported by the harness.",
    note=TB + "tools/ptyrun.py (pty driver, print parser) is trusted. Known finding F37 (after a FAILED step pc and marker disagree; the theorems are about successful steps).",
